@@ -25,7 +25,7 @@ constexpr int kNumCatRules = 5;
 extern const char *const kPatternMenu[];
 constexpr int kNumPatterns = 7;
 extern const char *const kFiles[];
-constexpr int kNumFiles = 4; // index 0 = null pointer
+constexpr int kNumFiles = 6; // index 0 = null pointer
 extern const char *const kFunctions[];
 constexpr int kNumFunctions = 4; // index 0 = null pointer
 
